@@ -273,6 +273,7 @@ func TestC13(t *testing.T) {
 				w, _ := strconv.ParseInt(f[3], 10, 64)
 				emitIngressD(t, float64(time.Second)/float64(d), time.Duration(w), parseDurs(f[4]), parseEvs(f[5]))
 			}
+			replaySites(t, f)
 			if len(f) == 5 && f[0] == "C13" && f[1] == "ingress" {
 				d, _ := strconv.ParseInt(f[2], 10, 64)
 				w, _ := strconv.ParseInt(f[3], 10, 64)
@@ -482,6 +483,8 @@ func TestC13(t *testing.T) {
 			emitIngressD(t, rate, wait, durs, arr)
 		}
 	}
+	// the enqueue sites of the reconcile queue (own stream: the cases above are unchanged)
+	genSites(t, tier, seed)
 	keys := make([]string, 0, len(stats))
 	for k := range stats {
 		keys = append(keys, k)
